@@ -138,6 +138,12 @@ def solve_old(assertions, timeout_s, logic=None):
         hdr += "(set-logic %s)\n" % logic
     text = hdr + text + "\n(check-sat)\n(get-model)\n"
     fd, path = tempfile.mkstemp(suffix=".smt2", prefix="verifq_")
+    dump = os.environ.get("VERIF_DUMP_SMT2")
+    if dump:
+        # debugging aid: keep a copy of every query handed to the external solver
+        os.makedirs(dump, exist_ok=True)
+        with open(os.path.join(dump, os.path.basename(path)), "w") as f:
+            f.write(text)
     try:
         with os.fdopen(fd, "w") as f:
             f.write(text)
